@@ -58,6 +58,29 @@ def public_entries(prog, an):
     return entries
 
 
+ARRAYISH = alias.ARRAY_ROLE
+
+
+def closure_rule(ctx, an=None, rule="R20c", prefix=None, floor=2):
+    """Closures handed out as callables (drift functions, curve functions): their arguments are arrays of whoever calls them."""
+    if an is None:
+        an = alias.Analyzer(ctx.prog)
+        an.run()
+    n_clos = 0
+    for fq in sorted(an.escaping_closures):
+        if prefix is not None and not fq.startswith(prefix):
+            continue
+        n_clos += 1
+        s = an.summ[fq]
+        bad = {p: t for p, t in s.mut.items() if t and ARRAYISH.match(p.lstrip("*"))}
+        for p, terms in sorted(bad.items()):
+            for term in sorted(terms):
+                ctx.violation(rule, term[0], "the callable returned by %s writes in place into its argument `%s`: `%s` (%s)" % (fq.split(".<locals>.")[0], p, term[1][:90], term[2]), "closure:%s:%s" % (p, term[1]))
+        if not bad:
+            ctx.ok(rule, fq, "returned callable does not write into its arguments")
+    ctx.floor(rule, "returned closures analysed", n_clos, floor)
+
+
 def run(ctx):
     prog = ctx.prog
     an = alias.Analyzer(prog)
@@ -102,6 +125,7 @@ def run(ctx):
             % (text[:90], how, len(entry_list), ", ".join(entry_list[:4]), "  =>  ".join(shortest[2])),
             text,
         )
+    closure_rule(ctx, an)
     ok_entries = 0
     for fq in sorted(entries):
         s = an.summ[fq]
